@@ -123,6 +123,10 @@ func (c *CodeStore) ExchangeCode(code string) (permission.Token, error) {
 	}
 	// can only get code once.
 	delete(c.store, code)
+	if token.Expired() {
+		// stale but not yet swept by keepClean
+		return permission.Token{}, errors.New("invalid code")
+	}
 	return token.Token, nil
 
 }
